@@ -1651,7 +1651,8 @@ theorem poolStep_evs_sources (cfg : Cfg) (st : St) (r : RoundIn) (e : Ev) (he : 
   have hs := round_evict_sound cfg st r e he
   obtain ⟨_, _, _, n, hn, hid, hcls, _⟩ := hs
   refine ⟨⟨n, hn, hid⟩, ?_⟩
-  rw [if_pos (runRound_evs_exit cfg st r e he)]
+  have hex := runRound_evs_exit cfg st r e he
+  rw [if_neg (by rw [hex]; decide)]
   simp only [poolSources, List.mem_append, List.mem_map]
   cases hp : e.prod with
   | false =>
@@ -1713,6 +1714,41 @@ theorem converted_evicted_by_one_pool (a : VArgs) (cfgOf : CPool → Cfg)
     ((balanceAll (·.sel) cfgOf mk nodes (convertPools a) st).2).Pairwise
       (fun s1 s2 => ∀ e1 ∈ s1.evs, ∀ e2 ∈ s2.evs, e2.node ≠ e1.node) :=
   balance_evicted_by_one_pool (·.sel) cfgOf mk nodes (convertPools a) st hmk
+
+theorem restrict_nodes_in (r : RoundIn) (ids : List Nat) : ∀ n ∈ (r.restrict ids).nodes, n.id ∈ ids := by
+  intro n hn
+  simp only [RoundIn.restrict, List.mem_filter, List.contains_eq_mem, decide_eq_true_eq] at hn
+  exact hn.2
+
+/-- the two Balance theorems without side condition, for round inputs restricted to the pool's nodes
+    (what the driver builds and what getNodeUsage does). -/
+theorem balance_restricted_evicted_by_one_pool {P : Type} (selOf : P → Option Labels) (cfgOf : P → Cfg)
+    (mk : Nat → P → List Nat → RoundIn) (nodes : List (Nat × Labels)) (ps : List P) (st : St) :
+    ((balanceAll selOf cfgOf (fun i q ids => (mk i q ids).restrict ids) nodes ps st).2).Pairwise
+      (fun s1 s2 => ∀ e1 ∈ s1.evs, ∀ e2 ∈ s2.evs, e2.node ≠ e1.node) :=
+  balance_evicted_by_one_pool selOf cfgOf _ nodes ps st fun i q ids => restrict_nodes_in (mk i q ids) ids
+
+theorem balance_restricted_evict_sound {P : Type} (selOf : P → Option Labels) (cfgOf : P → Cfg)
+    (mk : Nat → P → List Nat → RoundIn) (nodes : List (Nat × Labels)) (ps : List P) (st : St) :
+    ∀ s ∈ (balanceAll selOf cfgOf (fun i q ids => (mk i q ids).restrict ids) nodes ps st).2, ∀ e ∈ s.evs,
+      over e.usage e.high = true ∧ allPos e.avail = true ∧ e.node ∈ s.ids :=
+  balance_evict_sound selOf cfgOf _ nodes ps st fun i q ids => restrict_nodes_in (mk i q ids) ids
+
+/-- a pool that gets past its first two exits ("no nodes", "no source nodes") hands exactly its
+    `high` and `prodHigh` nodes to filterRealAbnormalNodes and records exactly them as processed. -/
+theorem poolStep_sources_eq (cfg : Cfg) (st : St) (r : RoundIn)
+    (h1 : (runRound cfg st r).exit ≠ 1) (h2 : (runRound cfg st r).exit ≠ 2) :
+    (poolStep cfg r st).sources = poolSources r := by
+  simp only [poolStep]
+  rw [if_neg (by intro h; rcases h with h | h <;> contradiction)]
+
+/-- anomaly gating over several pools: the nodes a pool has marked abnormal (its sources) are in the
+    node set of no later pool of the same Balance call - a node gets at most ONE abnormal mark per
+    Balance call, however many pools select it (the detectors are shared by the pools). -/
+theorem balance_marked_once {P : Type} (selOf : P → Option Labels) (cfgOf : P → Cfg)
+    (mk : Nat → P → List Nat → RoundIn) (nodes : List (Nat × Labels)) (ps : List P) (st : St) :
+    ((balanceAll selOf cfgOf mk nodes ps st).2).Pairwise (fun s1 s2 => ∀ id ∈ s1.sources, id ∉ s2.ids) :=
+  balancePools_sources_once selOf _ nodes ps 0 st []
 
 /-! ### defaulting quirks of the anomaly condition -/
 
